@@ -8,6 +8,7 @@ fn main() {
     }
     vh::common::install_panic_hook();
     vh::hook::install();
+    vh::guard::install_handler();
     match args[1].as_str() {
         "check" => {
             let prop = args[2].clone();
